@@ -247,11 +247,11 @@ def check_case(case, stats=None, K=oracle.K_QUICK):
     if "error" in ra or "error" in rb:
         ea = ra.get("error", {}).get("description", "")
         eb = rb.get("error", {}).get("description", "")
-        if ("error" in ra) != ("error" in rb) and "out of registers" not in ea + eb:
+        if ("error" in ra) != ("error" in rb) and not oracle.out_of_registers(ea + eb):
             raise Violation("C13:split-changes-acceptance:" + oracle.error_class(ea or eb) + d44_suffix(A),
                             {"modules": A, "merged": B, "error_modules": ea[:300], "error_merged": eb[:300], "opts": opts})
         if stats is not None:
-            stats.discarded["reject:" + ("registers" if "out of registers" in ea + eb else oracle.norm_error(ea or eb))] += 1
+            stats.discarded["reject:" + ("registers" if oracle.out_of_registers(ea + eb) else oracle.norm_error(ea or eb))] += 1
         return
     detail = {"modules": A, "merged": B, "opts": opts, "code_modules": ra["code"], "code_merged": rb["code"]}
     # (3) __main__ blocks contribute nothing; (4) never-called functions contribute no instructions
